@@ -310,9 +310,9 @@ PROPS = {
         witnesses=["BluetoeModel.Csc.wedge_cccd_cleared", "BluetoeModel.Csc.wedge_reconnect",
                    "BluetoeModel.Csc.never_deadlocks_full_witness"],
         run=run_c40,
-        level="proof",
+        level="proof-partial",
         technique="Lean 4 invariant proof over all in-scope histories of the control point + indication hand-shake model, differential correspondence with the real cycling_speed_and_cadence<> server, independent property monitor",
-        level_text="For every history of writes (any bytes), handler confirmations, l2cap_output calls and client confirmations: a write is answered 0xFE iff an accepted procedure still awaits its response indication (rejected_only_while_pending), a write answered with an error never changes the answer to any later write (malformed_never_blocks, every state), idle + well-formed => accepted, the responses name exactly the accepted opcodes in order with at most the pending one missing (one_response_per_accepted) and the pending response can always be obtained (pending_response_enabled). Proved for the code with fixes/csc-01 applied; the unpatched code wedges after one malformed write (monitor key C40:rejected-with-nothing-pending:after-malformed-opcode-N).",
+        level_text="For every history of writes (any bytes), handler confirmations, l2cap_output calls and client confirmations: a write is answered 0xFE iff an accepted procedure still awaits its response indication (rejected_only_while_pending), a write answered with an error never changes the answer to any later write (malformed_never_blocks, every state), idle + well-formed => accepted, the responses name exactly the accepted opcodes in order with at most the pending one missing (one_response_per_accepted) and the pending response can always be obtained (pending_response_enabled). Proved for the code with fixes/csc-01 applied; the unpatched code wedges after one malformed write (monitor key C40:rejected-with-nothing-pending:after-malformed-opcode-N). Outside that scope the control point dead-locks (wedge_cccd_cleared, wedge_reconnect, never_deadlocks_full_witness; known findings C40:wedged:cccd-cleared-while-response-queued, C40:wedged:disconnect-while-procedure-pending).",
         level_note="Trusted: Lean kernel + propext/Quot.sound/Classical.choice; model = code as far as the differential check samples it (thorough: all op sequences <= 6 over 9 ops); scope: control point configured for indications throughout, user handler confirms only what it owes (documented contract), one connection, MTU 23.",
         design_ref="§5 C40",
         assumptions=["user handler calls confirm_cumulative_wheel_revolutions exactly for set_cumulative_wheel_revolutions calls (documented contract)",
